@@ -416,11 +416,34 @@ int scan_from_with(var input, int pos, const char* fmt, var args) {
       }
       
       else if (strchr("diouxX", *fmt)) {
-        long tmp = 0;
-        int err = format_from(input, pos, fmt_buf, &tmp, &off);
+        /* Scan into an integer of the width the conversion names */
+        int err = 0;
+        int64_t val = 0;
+        bool sgn = (*fmt is 'd' or *fmt is 'i');
+        if (strstr(fmt_buf, "ll")) {
+          long long tmp = 0;
+          err = format_from(input, pos, fmt_buf, &tmp, &off);
+          val = sgn ? (int64_t)tmp : (int64_t)(unsigned long long)tmp;
+        } else if (strchr(fmt_buf, 'l')) {
+          long tmp = 0;
+          err = format_from(input, pos, fmt_buf, &tmp, &off);
+          val = sgn ? (int64_t)tmp : (int64_t)(unsigned long)tmp;
+        } else if (strstr(fmt_buf, "hh")) {
+          signed char tmp = 0;
+          err = format_from(input, pos, fmt_buf, &tmp, &off);
+          val = sgn ? (int64_t)tmp : (int64_t)(unsigned char)tmp;
+        } else if (strchr(fmt_buf, 'h')) {
+          short tmp = 0;
+          err = format_from(input, pos, fmt_buf, &tmp, &off);
+          val = sgn ? (int64_t)tmp : (int64_t)(unsigned short)tmp;
+        } else {
+          int tmp = 0;
+          err = format_from(input, pos, fmt_buf, &tmp, &off);
+          val = sgn ? (int64_t)tmp : (int64_t)(unsigned int)tmp;
+        }
         if (err < 1) { throw(FormatError, "Unable to input Int!"); }
         pos += off;
-        assign(a, $I(tmp));
+        assign(a, $I(val));
       }
       
       else if (strchr("fFeEgGaA", *fmt)) {
